@@ -84,20 +84,35 @@ type c17Run struct {
 	pi, val, l, r, p, d []float64
 }
 
+// c17Shared, when not nil, is the one model object the calls of a case share (`reuse` variant of the op): with model
+// frequencies it is initialised once with InitModel(nil, nil) and then asked for one alignment after the other, as
+// cmd/computedist.go and cmd/distboot.go do; with empirical frequencies it is re-initialised for every alignment.
+var c17Shared *protein.ProtDistModel
+var c17SharedInit bool
+
 func c17Call(idx int, modelfreqs, gamma bool, alpha float64, rmgaps bool, w []float64, rows []Row) (res c17Run, stage string) {
 	al, err := mkAlign(align.AMINOACIDS, rows)
 	if err != nil {
 		return res, "build"
 	}
-	m, err := protein.NewProtDistModel(idx, modelfreqs, gamma, alpha, rmgaps)
-	if err != nil {
+	var m *protein.ProtDistModel
+	if c17Shared != nil {
+		m = c17Shared
+	} else if m, err = protein.NewProtDistModel(idx, modelfreqs, gamma, alpha, rmgaps); err != nil {
 		return res, "new"
 	}
 	var wc []float64
 	if w != nil {
 		wc = append([]float64{}, w...)
 	}
-	if err = m.InitModel(al, wc); err != nil {
+	if c17Shared != nil && modelfreqs {
+		if !c17SharedInit {
+			if err = m.InitModel(nil, nil); err != nil {
+				return res, "init"
+			}
+			c17SharedInit = true
+		}
+	} else if err = m.InitModel(al, wc); err != nil {
 		return res, "init"
 	}
 	p, _, d, err := m.MLDist(al, wc)
@@ -148,6 +163,15 @@ func init() {
 		L := len(rows[0].Seq)
 		if !isPerm(rp, n) || !isPerm(cp, L) || (w != nil && len(w) != L) {
 			panic("harness: c17 bad permutation or weights")
+		}
+		// a[9] = "reuse": the three calls below go through one model object
+		c17Shared, c17SharedInit = nil, false
+		if len(a) > 9 && a[9] == "reuse" {
+			var err error
+			if c17Shared, err = protein.NewProtDistModel(idx, modelfreqs, gamma, alpha, rmgaps); err != nil {
+				return "err new"
+			}
+			defer func() { c17Shared = nil }()
 		}
 		base, stage := c17Call(idx, modelfreqs, gamma, alpha, rmgaps, w, rows)
 		if stage != "" {
